@@ -24,6 +24,7 @@ import (
 	"sync/atomic"
 	"syscall"
 	"time"
+	"unicode/utf8"
 	"unsafe"
 
 	abci "github.com/tendermint/tendermint/abci/types"
@@ -590,12 +591,20 @@ func (b *box) before(method string, req interface{}) {
 	}
 }
 
+// safeStr keeps text attributes readable and binary ones lossless.
+func safeStr(b []byte) string {
+	if utf8.Valid(b) {
+		return string(b)
+	}
+	return "hex:" + hex.EncodeToString(b)
+}
+
 func events(evs []abci.Event) []proto.Event {
 	var out []proto.Event
 	for _, e := range evs {
 		pe := proto.Event{Type: e.Type}
 		for _, a := range e.Attributes {
-			pe.Attrs = append(pe.Attrs, proto.Attr{K: string(a.Key), V: string(a.Value)})
+			pe.Attrs = append(pe.Attrs, proto.Attr{K: safeStr(a.Key), V: safeStr(a.Value)})
 		}
 		out = append(out, pe)
 	}
